@@ -224,13 +224,16 @@ class GaussianKDE(DensityEstimator):
         else:  # else just use the entire range of the samples
             lwr, upr = self.sample[0], self.sample[-1]
 
+        # search in terms of the offset from the lower bound: the optimiser's tolerance
+        # includes a term relative to the size of its argument, which would otherwise
+        # limit the accuracy of the mode for samples located far from zero
         result = minimize_scalar(
-            lambda x: -self(x),
-            bounds=[lwr, upr],
+            lambda dx: -self(lwr + dx),
+            bounds=[0.0, upr - lwr],
             method="bounded",
             options={"xatol": 1e-6 * (upr - lwr)},
         )
-        return result.x
+        return lwr + result.x
 
     def moments(self):
         """
